@@ -217,7 +217,7 @@ func (c *Ctx) runGcsConc(label string, jobs []gcsConcJob, classify func(jb gcsCo
 				c.Violation(id, fmt.Sprintf("%s: store %s, %s: a request got no reply (connection closed: handler panic) or never returned: aborted=%v stuck=%v (reproduced %d/3)", label, jobs[i].store, jobs[i].label, r.Aborted, r.Stuck, again),
 					map[string]interface{}{"kind": "gcs-conc", "job": jobs[i], "aborted": r.Aborted, "stuck": r.Stuck})
 			} else {
-				c.Inconclusive("%s: an aborted/stuck request did not reproduce (%s)", label, jobs[i].label)
+				c.Unreproduced("%s: an aborted/stuck request did not reproduce (%s)", label, jobs[i].label)
 			}
 			continue
 		}
@@ -280,7 +280,7 @@ func (c *Ctx) runGcsConc(label string, jobs []gcsConcJob, classify func(jb gcsCo
 			}
 		}
 		if again < 2 {
-			c.Inconclusive("%s: run %d (%s, store %s) was rejected at event %d (%s) but re-execution was accepted %d/3 times: not reported", label, rj.ID, jb.label, jb.store, rj.L, rj.Pt, 3-again)
+			c.Unreproduced("%s: run %d (%s, store %s) was rejected at event %d (%s) but re-execution was accepted %d/3 times", label, rj.ID, jb.label, jb.store, rj.L, rj.Pt, 3-again)
 			continue
 		}
 		id := ""
